@@ -423,6 +423,31 @@ class InterpreterAnalyzer(ASTTemplate):
         left_operand = self.visit(node.left)
         right_operand = self.visit(node.right)
 
+        if (
+            self.is_from_having
+            and isinstance(left_operand, Dataset)
+            and isinstance(right_operand, Dataset)
+        ):
+            # Inside a having clause every operand is one value per group: the names the
+            # dataset-level analysis gave to those values (Me_1, int_var, bool_var) must not
+            # prevent combining them.
+            left_measures = left_operand.get_measures_names()
+            right_measures = right_operand.get_measures_names()
+            if (
+                len(left_measures) == 1
+                and len(right_measures) == 1
+                and left_measures[0] != right_measures[0]
+            ):
+                components = {
+                    name: copy(comp)
+                    for name, comp in right_operand.components.items()
+                    if name != right_measures[0]
+                }
+                renamed = copy(right_operand.components[right_measures[0]])
+                renamed.name = left_measures[0]
+                components[left_measures[0]] = renamed
+                right_operand = Dataset(name=right_operand.name, components=components, data=None)
+
         if node.op == MEMBERSHIP:
             if right_operand not in left_operand.components and "#" in right_operand:
                 right_operand = right_operand.split("#")[1]
